@@ -29,6 +29,11 @@ def run_case(cs, ctx):
     rng = random.Random(cs)
     v = ge.legal_vector(rng, max_n1=8, max_n2=8, max_n3=6)
     v['numinst'] = rng.randint(1, 2)
+    if ctx.shard == 1 and not getattr(ctx, '_did_1000', False):
+        ctx._did_1000 = True
+        v['numinst'] = 1003
+        v['n1'] = min(v['n1'], 3)
+        ctx.cov('legal_with_more_than_1000_instances')
     outdir = ge.fresh_outdir(ctx.workdir, 'c15')
     argv = ge.to_argv(v, outdir, rng)
     case = {'cs': cs, 'vector': v, 'argv': [a if a != outdir else '<outdir>' for a in argv]}
